@@ -171,7 +171,7 @@ func (c *MJWrapperComponent) shouldUseOuterOnlyMSOWrapper() bool {
 
 		hasSection = true
 
-		fullWidth := section.GetAttributeWithDefault(section, "full-width")
+		fullWidth := section.fullWidthFlag()
 		backgroundURL := section.GetAttributeWithDefault(section, constants.MJMLBackgroundUrl)
 		consumesWrapperTable := fullWidth != "" && backgroundURL != ""
 
@@ -190,7 +190,7 @@ func (c *MJWrapperComponent) hasFullWidthSectionChild() bool {
 			continue
 		}
 		if section, ok := child.(*MJSectionComponent); ok {
-			if section.GetAttributeWithDefault(section, "full-width") != "" {
+			if section.fullWidthFlag() != "" {
 				return true
 			}
 		}
@@ -471,14 +471,14 @@ func (c *MJWrapperComponent) renderFullWidthToWriter(w io.StringWriter) error {
 			if sectionComp, ok := child.(*MJSectionComponent); ok {
 				nextBgColor = sectionComp.GetAttributeWithDefault(sectionComp, "background-color")
 				if nextBgColor == "" && delegatedWrapperBackground {
-					if sectionComp.GetAttributeWithDefault(sectionComp, "full-width") != "" && sectionComp.GetAttributeWithDefault(sectionComp, constants.MJMLBackgroundUrl) == "" {
+					if sectionComp.fullWidthFlag() != "" && sectionComp.GetAttributeWithDefault(sectionComp, constants.MJMLBackgroundUrl) == "" {
 						nextBgColor = wrapperBgColor
 					}
 				}
 			}
 			closeWrapper := true
 			if prevSection, ok := c.Children[i-1].(*MJSectionComponent); ok {
-				if prevSection.GetAttributeWithDefault(prevSection, "full-width") != "" {
+				if prevSection.fullWidthFlag() != "" {
 					closeWrapper = false
 				}
 			}
@@ -492,7 +492,7 @@ func (c *MJWrapperComponent) renderFullWidthToWriter(w io.StringWriter) error {
 
 		if delegatedWrapperBackground {
 			if sectionComp, ok := child.(*MJSectionComponent); ok {
-				if sectionComp.GetAttributeWithDefault(sectionComp, "full-width") != "" && sectionComp.GetAttributeWithDefault(sectionComp, constants.MJMLBackgroundUrl) == "" {
+				if sectionComp.fullWidthFlag() != "" && sectionComp.GetAttributeWithDefault(sectionComp, constants.MJMLBackgroundUrl) == "" {
 					sectionBg := sectionComp.GetAttributeWithDefault(sectionComp, "background-color")
 					if sectionBg == "" {
 						sectionBg = wrapperBgColor
@@ -819,14 +819,14 @@ func (c *MJWrapperComponent) renderSimpleToWriter(w io.StringWriter) error {
 			if sectionComp, ok := child.(*MJSectionComponent); ok {
 				nextBgColor = sectionComp.GetAttributeWithDefault(sectionComp, "background-color")
 				if nextBgColor == "" && delegatedWrapperBackground {
-					if sectionComp.GetAttributeWithDefault(sectionComp, "full-width") != "" && sectionComp.GetAttributeWithDefault(sectionComp, constants.MJMLBackgroundUrl) == "" {
+					if sectionComp.fullWidthFlag() != "" && sectionComp.GetAttributeWithDefault(sectionComp, constants.MJMLBackgroundUrl) == "" {
 						nextBgColor = wrapperBgColor
 					}
 				}
 			}
 			closeWrapper := true
 			if prevSection, ok := c.Children[i-1].(*MJSectionComponent); ok {
-				if prevSection.GetAttributeWithDefault(prevSection, "full-width") != "" {
+				if prevSection.fullWidthFlag() != "" {
 					closeWrapper = false
 				}
 			}
@@ -840,7 +840,7 @@ func (c *MJWrapperComponent) renderSimpleToWriter(w io.StringWriter) error {
 
 		if delegatedWrapperBackground {
 			if sectionComp, ok := child.(*MJSectionComponent); ok {
-				if sectionComp.GetAttributeWithDefault(sectionComp, "full-width") != "" && sectionComp.GetAttributeWithDefault(sectionComp, constants.MJMLBackgroundUrl) == "" {
+				if sectionComp.fullWidthFlag() != "" && sectionComp.GetAttributeWithDefault(sectionComp, constants.MJMLBackgroundUrl) == "" {
 					sectionBg := sectionComp.GetAttributeWithDefault(sectionComp, "background-color")
 					if sectionBg == "" {
 						sectionBg = wrapperBgColor
